@@ -118,9 +118,11 @@ Print Assumptions C12_lex_next_progress.
 Theorem C12_lex_parse_total :
   forall is_space is_letter is_digit : N -> bool,
     is_space RuneError = false -> is_letter RuneError = false -> is_digit RuneError = false ->
-    forall (is_number : N -> bool) (ftype : bytes -> N) (q : bytes),
-    seqql_parse is_space is_letter is_digit is_number ftype q = RErr \/
-    exists a, seqql_parse is_space is_letter is_digit is_number ftype q = ROk a.
+    forall (is_number : N -> bool) (ftype : bytes -> N) (to_lower : N -> N) (case_sensitive : bool)
+           (q : bytes),
+    seqql_parse is_space is_letter is_digit is_number ftype to_lower case_sensitive q = RErr \/
+    exists a, seqql_parse is_space is_letter is_digit is_number ftype to_lower case_sensitive q
+              = ROk a.
 Proof. exact seqql_parse_total. Qed.
 Print Assumptions C12_lex_parse_total.
 
@@ -149,6 +151,23 @@ Theorem C12_in_members_uniform :
 Proof. exact filter_in_shape. Qed.
 Print Assumptions C12_in_members_uniform.
 
+(* A range bound is normalised like a literal. Whenever the range parser accepts  [a, b]  (any
+   bracket / separator form, any field type the range accepts, sens = conf.CaseSensitive or the
+   field is _exists_), each stored bound is exactly the single term that keyword_terms - the model
+   of parseSeqQLKeyword, the function that builds the Terms of the plain literal f:v, including
+   the lower-casing of text runs when not case sensitive - produces for the written (unquoted,
+   composite) value of that bound. *)
+Theorem C12_range_bounds_as_literals :
+  forall (is_letter is_digit : N -> bool) (to_lower : N -> N) sens ts a b ts',
+    token_range is_letter is_digit to_lower sens ts = ROk (a, b, ts') ->
+    exists va ts1 vb ts2,
+      parse_composite is_letter is_digit (tl ts) = ROk (va, ts1) /\
+      keyword_terms to_lower sens va = ROk [a] /\
+      parse_composite is_letter is_digit (tl ts1) = ROk (vb, ts2) /\
+      keyword_terms to_lower sens vb = ROk [b] /\ ts' = tl ts2.
+Proof. exact range_bounds_as_literals. Qed.
+Print Assumptions C12_range_bounds_as_literals.
+
 (* non-vacuity, with ASCII class functions and a mapping k = keyword, t = text:
    k:"a\*b*" and not t:'x y' # c   parses; the unterminated  k:"a\"  lexes to six one-byte tokens
    (the error path of unquotePrefix) and is a parse error, not a panic *)
@@ -157,13 +176,17 @@ Definition ex_letter (r : N) : bool := in_range 97 122 r || in_range 65 90 r.
 Definition ex_digit (r : N) : bool := in_range 48 57 r.
 Definition ex_ftype (f : bytes) : N :=
   if bytes_eqb f [107%N] then 1%N else if bytes_eqb f [116%N] then 2%N else 0%N.
+Definition ex_lower (r : N) : N := if in_range 65 90 r then (r + 32)%N else r.
 Example C12_lex_nonvacuous :
-  seqql_parse ex_space ex_letter ex_digit ex_digit ex_ftype
+  seqql_parse ex_space ex_letter ex_digit ex_digit ex_ftype ex_lower false
     [107; 58; 34; 97; 92; 42; 98; 42; 34; 32; 97; 110; 100; 32; 110; 111; 116; 32;
      116; 58; 39; 120; 32; 121; 39; 32; 35; 32; 99]%N
   = ROk (NAndN (AndN (Leaf 0) (Leaf 0)) (Leaf 0))
   /\ option_map (@length ltok)
        (match lex ex_space ex_letter ex_digit [107; 58; 34; 97; 92; 34]%N with
         | ROk l => Some l | _ => None end) = Some 6
-  /\ seqql_parse ex_space ex_letter ex_digit ex_digit ex_ftype [107; 58; 34; 97; 92; 34]%N = RErr.
+  /\ seqql_parse ex_space ex_letter ex_digit ex_digit ex_ftype ex_lower false [107; 58; 34; 97; 92; 34]%N = RErr
+  (* k:[*, 'Bob'] : the bounds are the wildcard symbol and the folded text bob *)
+  /\ (do l <- lex ex_space ex_letter ex_digit [107; 58; 91; 42; 44; 32; 39; 66; 111; 98; 39; 93]%N;
+      range_view ex_letter ex_digit ex_lower false l) = ROk (TmSym, TmText [98; 111; 98]%N).
 Proof. vm_compute. repeat split. Qed.
